@@ -1569,7 +1569,11 @@ def run_case(inp):
         r = f(inp)
         c1 = canary_check(); _COUNTS["canary_evaluations"] += 1
         d1 = defaults_fp()
-        if c0 or c1:
+        # only the FIRST deviation of a process is attributed (to the case that caused it, or, for state remembered by
+        # identity / shape, to the first case of the process): later cases would fail only because of what that case left behind,
+        # and their replay alone would not reproduce it
+        if (c0 or c1) and not _CANARY.get("reported"):
+            _CANARY["reported"] = True
             r["py_ok"] = False
             r["detail"] = ((r.get("detail") or "") + "; the persistent canary fit (a fixed two-pixel fit and inversion, edited in place and "
                            "re-evaluated " + ("before" if c0 else "after") + " this case) no longer follows its definition -- state remembered "
